@@ -5,12 +5,13 @@ go 1.23.1
 require (
 	github.com/hknutzen/Netspoc-Approve/go v0.0.0
 	github.com/hknutzen/testtxt v0.0.0-20240408182449-0168fe18ebfb
+	github.com/tailscale/goexpect v0.0.0-20210902213824-6e8c725cea41
 )
 
 require (
 	github.com/google/goterm v0.0.0-20200907032337-555d40f16ae2 // indirect
 	github.com/pkg/diff v0.0.0-20210226163009-20ebb0f2a09e // indirect
-	github.com/tailscale/goexpect v0.0.0-20210902213824-6e8c725cea41 // indirect
+	github.com/spf13/pflag v1.0.5 // indirect
 	golang.org/x/crypto v0.35.0 // indirect
 	golang.org/x/sys v0.30.0 // indirect
 	golang.org/x/term v0.29.0 // indirect
